@@ -31,6 +31,24 @@ Proof.
   cbn [orb andb]. rewrite from_str_radix_spec. apply opt_meets.
 Qed.
 
+(* the arm as it was (prefix dropped whatever the radix) agrees with the specification whenever the text has
+   no 0x prefix or the radix is 16 *)
+Theorem parse_radix_head_meets mk lo hi s r : (strip_0x s = None \/ r = 16) ->
+  meets (impl_parse_radix_head mk lo hi s r) (spec_parse_radix mk lo hi s r).
+Proof.
+  intros H. unfold impl_parse_radix_head, spec_parse_radix.
+  destruct (r <? 0) eqn:N.
+  { apply Z.ltb_lt in N. replace (2 <=? r) with false by (symmetry; apply Z.leb_gt; lia). cbn. auto. }
+  destruct (r <? 2) eqn:A.
+  { apply Z.ltb_lt in A. replace (2 <=? r) with false by (symmetry; apply Z.leb_gt; lia). cbn. auto. }
+  apply Z.ltb_ge in A. replace (2 <=? r) with true by (symmetry; apply Z.leb_le; lia).
+  destruct (36 <? r) eqn:B.
+  { apply Z.ltb_lt in B. replace (r <=? 36) with false by (symmetry; apply Z.leb_gt; lia). cbn. auto. }
+  apply Z.ltb_ge in B. replace (r <=? 36) with true by (symmetry; apply Z.leb_le; lia).
+  cbn [orb andb]. rewrite from_str_radix_spec.
+  destruct H as [H | ->]; [rewrite H | destruct (strip_0x s)]; apply opt_meets.
+Qed.
+
 Theorem parse_int_radix_meets s r : meets (impl_parse_int_radix s r) (spec_parse_int_radix s r).
 Proof. apply parse_radix_meets. Qed.
 Theorem parse_bigint_radix_meets s r : meets (impl_parse_bigint_radix s r) (spec_parse_bigint_radix s r).
